@@ -17,6 +17,19 @@ def explore(res, scale=1, seed=None):
     # the vectored path (WriteColumn + Flush) against the buffer path for every catalogue kind in both builds, the
     # preceding bytes handed over in the Writer's own buffer or chained (direct oracle per build)
     colfam.run_direct(res, "c14col", 1, seed, builds=("default", "purego"))
+    # zero rows on a reader with a history (arrays that are all empty), and Bool bytes other than 0/1: what BOTH builds
+    # accept must decode and re-encode alike (what only one accepts is the documented divergence, outside the property)
+    xr = colfam.run_direct(res, "c15x", 1, seed, builds=("default", "purego"))
+    for a, b in zip(xr["default"], xr["purego"]):
+        if a[0] != b[0]:
+            res.tie_broken("generator", "c15x: the two builds generated different cases: %s | %s" % (a[0][:100], b[0][:100]))
+            break
+        if a[0].startswith("boolnc"):
+            if a[1].startswith("acc") and b[1].startswith("acc") and a[1] != b[1]:
+                res.oracle_fail(a[0], "both builds accept these Bool bytes and decode / re-encode them differently: default=%s purego=%s" % (a[1], b[1]))
+        elif a[1] != b[1]:
+            res.oracle_fail(a[0], "builds differ (c15x): default=%s purego=%s" % (a[1][:300], b[1][:300]))
+        n += 1
     res.extra["cases_compared_between_builds"] = n
     res.extra["rule"] = ("the same seeded cases run by the harness compiled without and with -tags purego: encodings (into non-empty "
                          "buffers), decodes into fresh columns, prefixes; family c15: every value of the 8-bit element types "
